@@ -6,10 +6,10 @@ func init() {
 		Explanation: "Rely/guarantee inductive step plus bounded histories on the real lru store (lru.go, container/list executed as real code). (1) VerifC10_update: the store is put into an arbitrary quiescent state — up to N list entries in LRU order, each pending or completed, completed ones with an arbitrary symbolic accounted size ≥ entryMinSize, one or two commands per key, symbolic budget max, assuming only the representation invariant (size = Σ completed sizes ≤ max, or nothing evictable); then one real Flight+Update completes a pending entry. Oracle: invariant re-established (size = Σ sizes of completed entries actually in the list, every element indexed by store[key].cache[cmd] and vice versa), size ≤ max or no completed entry left, evicted entries are a prefix of the completed entries in list order, pending entries never evicted. Because the pre-state is arbitrary within the shape bound, the step covers update histories of any length. (2) VerifC10_history: every sequence of ≤ S operations (Flight with symbolic TTL, Update with three value sizes, Cancel, Delete(key|nil), clock advance by a symbolic number of seconds) over 2 keys × 2 commands from newLRU with a symbolic budget; the accounting invariant is asserted after every operation (reachability twin of the step's pre-states and coverage of the expiry/delete/cancel branches).",
 		Assumptions: []string{"the store mutex serialises operations (one operation at a time; sync.RWMutex is an engine intrinsic)", "accounted sizes ≤ 2^40 and budget ≤ 2^50 (no int overflow)"},
 		Outside:     []string{"more than N entries visible to one update (the eviction loop is uniform in the list length)", "Flights (batched) is exercised under C11, not here"},
-		Bounds:      map[string]any{"quick": "N = 4 entries; histories of S = 3 operations", "thorough": "N = 6 entries; histories of S = 4 operations"},
+		Bounds:      map[string]any{"quick": "N = 4 entries; histories of S = 3 operations", "thorough": "N = 5 entries; histories of S = 4 operations"},
 		specs: func(tier string) []specRef {
 			return []specRef{
-				hsx(rootPkg, "VerifC10_update", P{"max_entries": q(tier, int64(4), 6)}, 5000000, 3000, "evicted", "kept"),
+				hsx(rootPkg, "VerifC10_update", P{"max_entries": q(tier, int64(4), 5)}, 5000000, 3000, "evicted", "kept"),
 				hsx(rootPkg, "VerifC10_history", P{"steps": q(tier, int64(3), 4)}, 5000000, 3000, "history", "updated"),
 			}
 		},
